@@ -136,6 +136,48 @@ Definition run_stream_waits (a : list Z) : list Z :=
 (* CMD calc_blockdep = 7 : see model/Blockdep.v [parse_case] -> [status; blockdep] *)
 Definition run_calc_blockdep (a : list Z) : list Z := run_blockdep_case a.
 
+Fixpoint parse_fms (n : nat) (a : list Z) : list fmap * list Z :=
+  match n with
+  | O => ([], a)
+  | S n' => match parse_fm a with
+            | Some (f, t) => let '(fs, r) := parse_fms n' t in (f :: fs, r)
+            | None => ([], [])
+            end
+  end.
+Fixpoint parse_aranges (n : nat) (a : list Z) : list arange * list Z :=
+  match n, a with
+  | S n', rg :: ad :: ln :: t => let '(rs, r) := parse_aranges n' t in ((rg, ad, ln) :: rs, r)
+  | _, _ => ([], a)
+  end.
+
+(* CMD op_accesses = 9 : nrf fm(17)*nrf nrr (region addr len)*nrr nwf fm(17)*nwf nwr (region addr len)*nwr
+   -> [1; read set; write set (as in ma_conflicts)] | [0] (assertion) *)
+Definition run_op_accesses (a : list Z) : list Z :=
+  match a with
+  | nrf :: t =>
+      let '(rf, t1) := parse_fms (Z.to_nat nrf) t in
+      match t1 with
+      | nrr :: t2 =>
+          let '(rr, t3) := parse_aranges (Z.to_nat nrr) t2 in
+          match t3 with
+          | nwf :: t4 =>
+              let '(wf, t5) := parse_fms (Z.to_nat nwf) t4 in
+              match t5 with
+              | nwr :: t6 =>
+                  let '(wr, _) := parse_aranges (Z.to_nat nwr) t6 in
+                  match op_accesses rf rr wf wr with
+                  | Some m => 1 :: flat_mrs (ma_read m) ++ flat_mrs (ma_write m)
+                  | None => [0]
+                  end
+              | [] => [-1]
+              end
+          | [] => [-1]
+          end
+      | [] => [-1]
+      end
+  | _ => [-1]
+  end.
+
 (* CMD hazard_stats = 8 : ncores lut_addr shram_usable max_dma max_kern words
    -> [1; kernel pairs; with BLOCKDEP > 0; of those with IFM/OFM overlap; cross pairs tested; waits] | [0] *)
 Definition run_hazard_stats (a : list Z) : list Z :=
@@ -162,4 +204,5 @@ Definition run (cmd : Z) (a : list Z) : list Z :=
   else if cmd =? 6 then run_stream_waits a
   else if cmd =? 7 then run_calc_blockdep a
   else if cmd =? 8 then run_hazard_stats a
+  else if cmd =? 9 then run_op_accesses a
   else [-1].
